@@ -117,7 +117,7 @@ def random_alphabet():
     for c in CLIENTS:
         ops += [["cmdreq", c]] * 5 + [["logoffreq", c]] * 3 + [["cpow", c]] * 2 + [["cterm", c]]
     ops += [["tick", 1]] * 14 + [["tick", "T-1"]] * 3 + [["tick", "T"]] * 3 + [["tick", "T+2"]] * 4
-    ops += [["srvpow"]] * 4 + [["srvterm"]] * 3
+    ops += [["srvpow"]] * 4 + [["srvterm"]] * 3 + [["srvusm"]] * 3
     return ops
 
 
@@ -591,6 +591,14 @@ class Driver:
         term = self.nodes[node].software_manager.software["terminal"]
         running = term.operating_state.name == "RUNNING"
         st = self.apply(form("node-service-stop" if running else "node-service-start", node_name=node, service_name="terminal"))
+        return f"{'stop' if running else 'start'}:{st}"
+
+    def op_srvusm(self):
+        """stop / start the server's user-session-manager service (a service power event on the target end)"""
+        usm = self.nodes[SERVER].software_manager.software["user-session-manager"]
+        running = usm.operating_state.name == "RUNNING"
+        st = self.apply(form("node-service-stop" if running else "node-service-start", node_name=SERVER, service_name="user-session-manager"))
+        self.model.on_disturb()
         return f"{'stop' if running else 'start'}:{st}"
 
     def op_srvterm(self):
